@@ -27,11 +27,28 @@ class MachineryError(Exception):
     """TLC crashed, output unparsable, verdicts missing: exit status 2."""
 
 
+_CREATED = []
+
+
+def _cleanup():
+    if os.environ.get("VERIF_KEEP_WORK"):
+        return
+    for d in _CREATED:
+        shutil.rmtree(d, ignore_errors=True)
+
+
 def workdir(name, fresh=True):
-    d = os.path.join(WORK, name)
+    """Scratch directory under /verif/.work, private to this process (two runs of the same check
+    may overlap) and removed when the process ends (set VERIF_KEEP_WORK=1 to keep it)."""
+    d = os.path.join(WORK, "%s-%d" % (name, os.getpid()))
     if fresh and os.path.isdir(d):
         shutil.rmtree(d, ignore_errors=True)
     os.makedirs(d, exist_ok=True)
+    if d not in _CREATED:
+        if not _CREATED:
+            import atexit
+            atexit.register(_cleanup)
+        _CREATED.append(d)
     return d
 
 
@@ -152,7 +169,8 @@ def judge(module, records, name, cfg=None, nshards=None, weight=None, timeout=36
         want = [x["id"] for x in shards[k]]
         missing = [i for i in want if i not in found]
         if r["rc"] != 0 or missing:
-            keep = os.path.join(wd, "failed_shard_%02d.out" % k)
+            os.makedirs(os.path.join(WORK, "failed"), exist_ok=True)
+            keep = os.path.join(WORK, "failed", "%s_%d_shard_%02d.out" % (name, os.getpid(), k))
             with open(keep, "w") as f:
                 f.write(r["out"])
             raise MachineryError(
